@@ -1445,6 +1445,34 @@ def g_ownalpha(rng):
     return f"ownalpha {TA(rules, A.finals).tok()}"
 
 
+def g_ltsc(rng):
+    """histories on the container ExplicitLTS: construction in one go, extension between two init() calls (new labels, new states, parallel
+    edges, consecutive duplicates), clear and rebuild"""
+    steps = [f"new!{rng.choice([0, 0, 1, 2, 3, 5])}"]
+    n, nl = rng.randint(1, 5), rng.randint(1, 3)
+
+    def adds(k, n, nl):
+        out = []
+        for _ in range(k):
+            e = (rng.randrange(n), rng.randrange(nl), rng.randrange(n))
+            out.append("add!%d!%d!%d" % e)
+            if rng.random() < 0.2:
+                out.append("add!%d!%d!%d" % e)           # consecutive duplicate (parallel edge)
+        return out
+    steps += adds(rng.randint(0, 6), n, nl) + ["init"]
+    for _ in range(rng.randint(0, 2)):
+        c = rng.random()
+        if c < 0.25:
+            steps.append("clear")
+            n, nl = rng.randint(1, 4), rng.randint(1, 3)
+        elif c < 0.7:
+            n, nl = n + rng.randint(0, 2), nl + rng.randint(0, 2)     # the extension may bring new states and labels
+        steps += adds(rng.randint(0, 4), n, nl) + ["init"]
+        if rng.random() < 0.2:
+            steps.append("init")
+    return "ltsc " + " ".join(steps)
+
+
 def g_parse2(rng):
     """two spellings of ONE well-formed description: t0 as the serialiser writes it, t1 with every layout freedom the property's
     quantifier names ("nullary rules written with or without parentheses", blanks, tabs, CR, blank lines, trailing blanks)"""
@@ -1689,7 +1717,7 @@ GENERATORS = {
     "tah_store": g_tah_store, "tah_hist": g_tah_hist,
     "lts": g_lts,
     "nfah_incl": g_nfah_incl, "nfah_inclsim": g_nfah_inclsim, "nfah_cli": g_nfah_cli, "nfah_ops": g_nfah_ops, "nfah_hist": g_nfah_hist,
-    "incl": g_incl, "inclall": g_inclall, "union": g_union, "unionpre": g_unionpre, "mapsx": g_mapsx, "parse2": g_parse2, "ownalpha": g_ownalpha, "uniondisj": g_uniondisj,
+    "incl": g_incl, "inclall": g_inclall, "union": g_union, "unionpre": g_unionpre, "mapsx": g_mapsx, "parse2": g_parse2, "ownalpha": g_ownalpha, "ltsc": g_ltsc, "uniondisj": g_uniondisj,
     "isect": g_isect, "isectbu": g_isectbu, "trim": g_trim, "cand": g_cand, "reduce": g_reduce, "simdown": g_simdown, "simup": g_simup,
     "compl": g_compl, "rename": g_rename,
 }
